@@ -1786,6 +1786,12 @@ impl Monitor {
                                 "unfinished_deps",
                                 format!("task {} waits for {unfinished_deps} dependencies but none of them exists any more", t.id),
                             );
+                            self.v(
+                                Prop::C01,
+                                "task-never-ends",
+                                "waits-for-dependencies-that-are-all-gone",
+                                format!("system at rest, task {} waits for {unfinished_deps} dependencies but every task it depends on has ended and left the core: it will never get an outcome", t.id),
+                            );
                         }
                         continue;
                     }
